@@ -17,12 +17,13 @@ from .facts import strip, walk, kids
 
 
 class Canon:
-    def __init__(self, fn, uniform=False):
+    def __init__(self, fn, uniform=False, noinline=False):
         """uniform=True (reference summaries): the induction variable of a `for` statement is an ordinary reassigned
         local (so `for (init; c; inc) body` and `init; while (c) { body; inc; }` have the same canonical events), and
         reassigned locals are named by the order of their declarations (?v1, ?v2, ...), not by their spelling."""
         self.fn = fn
         self.uniform = uniform
+        self.noinline = noinline      # locals keep their identity (only reference locals are aliases): true evaluation order
         self.params = {p["id"]: i for i, p in enumerate(fn.o["params"])}
         self.defs = {}
         self.loopvars = {}
@@ -76,6 +77,8 @@ class Canon:
                             not ((si.get("ctor") or {}).get("copy") or (si.get("ctor") or {}).get("move")) and \
                             not n.get("ref") and n.get("is") != "c":
                         continue      # an object constructed in place is a variable of its own, not an alias
+                    if noinline and not n.get("ref"):
+                        continue
                     self.defs[n["id"]] = n["init"]
         # a by-value local that is mutated through a non-const member call is a variable, not a name for its
         # initialiser (references stay aliases of what they are bound to)
